@@ -206,6 +206,7 @@ impl Property for C19 {
         };
         sc.read_plan = gen_any_plan(rng, &sc.input.0.clone(), cfg.delim.is_none(), &sep);
         add_neutral_xargs_opts(rng, &mut sc.opts);
+        add_ambient_xargs(rng, &mut sc);
         sc
     }
 
